@@ -1,0 +1,83 @@
+//go:build verif
+
+// Contracts for the deductive verifier in /verif (govc); comments only.
+package meeklite
+
+// Ghost view of a meek connection:
+//   reqcat   concatenation of the bodies of all requests that were answered 200, in request order
+//   respcat  concatenation of all response bodies, in request order
+//   rdone    concatenation of everything Read has returned
+// and the ghost channel logs recvcat/sentcat (bytes received from / sent to a channel, in order).
+//@ ghostfield meeklite.meekConn reqcat BSeq
+//@ ghostfield meeklite.meekConn respcat BSeq
+//@ ghostfield meeklite.meekConn rdone BSeq
+
+// what Read still holds from the last chunk
+//@ pred pend(c) := ite(c.rdBuf == nil, "", c.rdBuf.content)
+//@ pred rdOK(c) := c != nil && c.workerRdChan != nil && (c.rdBuf != nil ==> whole(c.rdBuf) && len(c.rdBuf.content) > 0)
+
+// Read returns the bytes the worker enqueued, in order, without loss or duplication: everything returned
+// so far plus what is still buffered is exactly what has been received from the worker.
+//@ func (*meekConn).Read(c, p) (n, err)
+//@   serves C16 C10
+//@   requires rdOK(c) && cat(c.rdone, pend(c)) == recvcat(c.workerRdChan)
+//@   modifies c.rdBuf, c.rdone, c.rdBuf.content, elems(p), star(c.workerRdChan), blocked
+//@   ghostset c.rdone := cat(old(c.rdone), seq(p[0:n]))
+//@   ensures 0 <= n && n <= len(p) && rdOK(c)
+//@   ensures [C16:read_in_order_no_loss_no_duplication] cat(c.rdone, pend(c)) == recvcat(c.workerRdChan) && c.rdone == cat(old(c.rdone), seq(p[0:n]))
+//@   ensures [C16:buffered_data_first] old(c.rdBuf) != nil ==> recvcat(c.workerRdChan) == old(recvcat(c.workerRdChan)) && blocked == old(blocked)
+
+// enqueueWrite hands the chunk to the worker; a send on the channel the worker has closed panics and is
+// recovered (recover is not modelled: the contract is assumed, only the frame is checked by callers)
+//@ func (*meekConn).enqueueWrite(c, b) (ok)
+//@   serves C16
+//@   nobody recover() of the send-on-closed-channel panic is outside the Go subset
+//@   requires c != nil
+//@   modifies star(c.workerWrChan), blocked
+//@   ensures ok ==> sentcat(c.workerWrChan) == cat(old(sentcat(c.workerWrChan)), seq(b))
+//@   ensures !ok ==> sentcat(c.workerWrChan) == old(sentcat(c.workerWrChan))
+
+//@ func (*meekConn).Close(c) (err)
+//@   serves C16
+//@   nobody sync.Once with a closure; only the effect on the close channel is stated
+//@   requires c != nil
+//@   modifies star(c.workerCloseChan), c.closeOnce.*
+//@   ensures chanclosed(c.workerCloseChan)
+
+// Write queues a private copy of exactly the caller's bytes, once, in call order; after Close it fails.
+//@ func (*meekConn).Write(c, b) (n, err)
+//@   serves C16 C10
+//@   requires c != nil && c.workerCloseChan != nil && c.workerWrChan != nil && outside(b, c.workerWrChan)
+//@   modifies star(c.workerWrChan), star(c.workerCloseChan), blocked
+//@   assert_at meekConn).enqueueWrite#1 [C16:queues_a_private_copy] seq(arg1) == seq(b) && len(arg1) == len(b) && fresh(arg1)
+//@   ensures [C16:write_fails_after_close] old(chanclosed(c.workerCloseChan)) ==> n == 0 && err != nil && sentcat(c.workerWrChan) == old(sentcat(c.workerWrChan))
+//@   ensures [C16:write_queues_exactly_the_bytes] err == nil ==> n == len(b) && sentcat(c.workerWrChan) == cat(old(sentcat(c.workerWrChan)), seq(b))
+//@   ensures [C16:failed_write_queues_nothing] err != nil ==> n == 0 && sentcat(c.workerWrChan) == old(sentcat(c.workerWrChan))
+
+// One HTTP round trip (net/http is outside the model: the contract is assumed).  What callers must
+// guarantee - and what is checked at the call site - is the body bound; what they may assume is the
+// ghost accounting: a body is counted once, when it was answered 200, and the response body is counted.
+//@ func (*meekConn).roundTrip(c, sndBuf) (res, err)
+//@   serves C16
+//@   nobody net/http (Transport.RoundTrip, Request, Header, io.ReadAll) is not modelled
+//@   requires c != nil
+//@   requires [C16:no_body_exceeds_65536] len(sndBuf) <= 65536
+//@   modifies c.reqcat, c.respcat, blocked, now
+//@   ensures err == nil ==> c.reqcat == cat(old(c.reqcat), seq(sndBuf)) && c.respcat == cat(old(c.respcat), seq(res)) && len(res) <= 65536 && (res == nil || fresh(res))
+//@   ensures err != nil ==> c.reqcat == old(c.reqcat) && c.respcat == old(c.respcat)
+
+// The worker: one request at a time (it is a sequential loop); request bodies are, in order, exactly
+// the bytes received from Write - what does not fit a 65536-byte body is kept and sent first in the
+// next request -; every non-empty response body is handed to Read, in order.
+//@ func (*meekConn).ioWorker(c) ()
+//@   serves C16 C10
+//@   requires c != nil && c.workerWrChan != nil && c.workerRdChan != nil && c.workerCloseChan != nil && c.workerWrChan != c.workerRdChan
+//@   requires len(c.reqcat) == 0 && len(c.respcat) == 0 && len(recvcat(c.workerWrChan)) == 0 && len(sentcat(c.workerRdChan)) == 0
+//@   modifies c.reqcat, c.respcat, star(c.workerWrChan), star(c.workerRdChan), star(c.workerCloseChan), c.closeOnce.*, blocked, now
+//@   loop 1 invariant [C16:bodies_are_the_written_bytes_in_order] cat(c.reqcat, seq(leftBuf)) == recvcat(c.workerWrChan)
+//@   loop 1 invariant [C16:responses_reach_read_in_order] sentcat(c.workerRdChan) == c.respcat
+//@   loop 1 invariant leftBuf == nil || fresh(leftBuf)
+//@   loop 2 invariant cat(c.reqcat, seq(sndBuf)) == recvcat(c.workerWrChan) && wrSz == len(sndBuf) && sentcat(c.workerRdChan) == c.respcat && (sndBuf == nil || fresh(sndBuf))
+//@   ensures [C16:worker_closes_both_queues] chanclosed(c.workerRdChan) && chanclosed(c.workerWrChan) && chanclosed(c.workerCloseChan)
+//@   ensures [C16:bodies_are_a_prefix_of_the_written_bytes] len(c.reqcat) <= len(recvcat(c.workerWrChan)) && sub(recvcat(c.workerWrChan), 0, len(c.reqcat)) == c.reqcat
+//@   ensures [C16:responses_reach_read_in_order] sentcat(c.workerRdChan) == c.respcat
